@@ -123,7 +123,7 @@ pub fn tokenize_cla(input: &str) -> Result<Vec<CToken>, ParseError> {
                 } else if c.is_alphabetic() {
                     let mut name = c.to_string();
                     while let Some(&(_, c)) = chars.peek() {
-                        if !c.is_alphanumeric() {
+                        if !c.is_alphanumeric() || c == 'λ' {
                             break;
                         } else {
                             name.push(c);
